@@ -197,11 +197,12 @@ class Repo:
         dotted = re.sub(r'(/__init__)?\.pyx?$', '', relpath).replace('/', '.')
         return self.need(dotted)
 
-    def resolve(self, mod: Mod, name: str, depth=0):
-        """-> ('def', Mod, node) | ('module', dotted) | ('external', dotted, name) | None"""
+    def resolve(self, mod: Mod, name: str, depth=0, skip_defs=False):
+        """-> ('def', Mod, node) | ('module', dotted) | ('external', dotted, name) | None.  skip_defs: what the name is bound to by the module's import statements only
+        (the value an assignment `name = wrap(name)` reads on its right-hand side when `name` was imported above it)"""
         if depth > 12:
             raise AnalysisError(f'import cycle resolving {name} from {mod.name}')
-        if name in mod.defs:
+        if name in mod.defs and not skip_defs:
             if name in mod.ambiguous:
                 raise AnalysisError(f'{mod.rel()}: `{name}` is bound differently in both branches of a module-level `if` whose test cannot be decided statically')
             return ('def', mod, mod.defs[name])
